@@ -302,7 +302,8 @@ impl Check for Traced {
             Tier::Thorough => 2 + (index % 3) as u32,
         };
         let mut cfg = Cfg::general(depth);
-        if self.prop == "C10" {
+        if self.prop == "C10" || index % 4 == 3 {
+            // C10: always; C01: a quarter of the programs are recursion / closure dense as well
             cfg.profile = Profile::Reentrant;
             cfg.start_stmts = 6;
         }
